@@ -71,17 +71,33 @@ def make_np(npc):
     raise ValueError(k)
 
 
-def make_mab(cfg):
-    mab = MAB(list(cfg["arms"]), make_lp(cfg["lp"], cfg.get("binz")), make_np(cfg.get("np")),
+def make_mab(cfg, arms=None):
+    mab = MAB(list(cfg["arms"]) if arms is None else arms, make_lp(cfg["lp"], cfg.get("binz")), make_np(cfg.get("np")),
               seed=cfg.get("seed", 123456), n_jobs=cfg.get("n_jobs", 1), backend=cfg.get("backend"))
     if cfg.get("int_ctx"):
         mab._verif_int_ctx = True        # twinlib.apply_op passes integral contexts as integer-typed rows
+    if cfg.get("reward_dtype"):
+        mab._verif_reward_dtype = cfg["reward_dtype"]
     if cfg.get("as_pandas"):
         mab._verif_as_pandas = True      # ... and decisions / rewards / contexts as pandas containers
     return mab
 
 
 EXACT_METRICS = ("cityblock", "chebyshev", "sqeuclidean", "euclidean")
+
+REWARD_DTYPES = {"bool": (0, 1), "uint8": (0, 255), "int8": (-128, 127), "int16": (-32768, 32767), "int32": (-2 ** 31, 2 ** 31 - 1)}
+
+
+def reward_container(cfg, r):
+    """the rewards of one training call as the caller's container: a list, or (cfg["reward_dtype"]) a numpy array of a
+    narrow / boolean dtype when every reward of the batch is an integer that the dtype holds exactly"""
+    dt = cfg.get("reward_dtype")
+    if not dt or not r or any(x is None or isinstance(x, (str, bool)) or x != int(x) for x in r):
+        return r
+    lo, hi = REWARD_DTYPES[dt]
+    if any(not lo <= x <= hi for x in r):
+        return r
+    return np.array([int(x) for x in r], dtype=dt)
 
 
 def arm_value(a):
@@ -141,6 +157,8 @@ class ImplRun:
             if kind in ("fit", "pfit"):
                 d = list(op["d"]) if op.get("typeok", True) else tuple(op["d"])
                 r = [self._reward(x) for x in op["r"]]
+                if op.get("typeok", True):
+                    r = reward_container(self.cfg, r)
                 c = op.get("c")
                 if c is not None and not op.get("ctypeok", True):
                     c = tuple(tuple(x) for x in c)
